@@ -11,7 +11,7 @@ git checkout -q -- . 2>/dev/null
 git apply $OUT/patch.diff || { echo "PATCH-DOES-NOT-APPLY"; exit 2; }
 go build ./... >/dev/null 2>&1 && echo "build-with-change: ok" || { echo "build-with-change: FAIL"; exit 2; }
 go test -count=1 -run "$RX" $PKG >/tmp/seed/$N-demo-with.log 2>&1 && echo "demo-with-change: PASSES (bad)" || echo "demo-with-change: fails (good)"
-go test -count=1 -skip "TestSeedDemo|TestLoadRepo" $PKG "$@" >/tmp/seed/$N-tests-with.log 2>&1 && echo "existing-tests-with-change: pass" || { echo "existing-tests-with-change: FAIL"; tail -5 /tmp/seed/$N-tests-with.log; }
+go test -count=1 -skip "SeedDemo|TestLoadRepo" $PKG "$@" >/tmp/seed/$N-tests-with.log 2>&1 && echo "existing-tests-with-change: pass" || { echo "existing-tests-with-change: FAIL"; tail -5 /tmp/seed/$N-tests-with.log; }
 git apply -R $OUT/patch.diff
 go test -count=1 -run "$RX" $PKG >/tmp/seed/$N-demo-without.log 2>&1 && echo "demo-without-change: passes (good)" || { echo "demo-without-change: FAILS (bad)"; tail -5 /tmp/seed/$N-demo-without.log; }
 git apply $OUT/patch.diff
